@@ -319,7 +319,10 @@ CHECKS["C02"] = dict(
           "keep arriving for it. "
           "part directed-grid enumerates 8 points x 6 faults x hit index {1,2,3,5,8} x hold {2,20 ms} = 480 schedules. part stress (no "
           "hooks): 2..12 connections x 2000..20000 windowed requests while node connections are killed after a random number of commands "
-          "(optionally mid-reply / RST) again and again. Oracle: every request written on a connection the harness keeps open receives "
+          "(optionally mid-reply / RST) again and again. part chaos (no hooks): 2..10 connections x 1000..8000 requests with 1..64 in flight "
+          "(GET / SET / MGET / MSET over six hash tags, with compression also APPEND, which the backend-side filter stops) while a fault thread "
+          "keeps drawing from a generated subset of {connection killed after k commands, connections dropped, node restarted, endpoint set "
+          "replaced, member removed and re-added, slot migrated with MOVED/ASK redirections} every 0.1..3 ms. Oracle: every request written on a connection the harness keeps open receives "
           "exactly one reply (value or error) within the hang deadline (10 s, confirmed by two goroutine dumps 1 s apart), no surplus "
           "bytes, well-formed reply stream; a crash of the test process (close of closed channel = double completion) is a violation. "
           "Non-trivial: a directive fired (the fault hit a request queued / in the writer's hand / awaiting its answer); stress: kills "
@@ -330,6 +333,7 @@ CHECKS["C02"] = dict(
         dict(name="directed", test="TestDirected", kind="rapid", checks={"quick": 150, "thorough": 3000}, shards=16, timeout={"quick": 900, "thorough": 3400}, shrinktime="60s", gomaxprocs=4, crash_is_violation=True),
         dict(name="directed-ask", test="TestDirectedAsk", kind="rapid", checks={"quick": 80, "thorough": 3000}, shards=16, timeout={"quick": 900, "thorough": 3400}, shrinktime="60s", gomaxprocs=4, crash_is_violation=True, records=["directed", "directed-ask"]),
         dict(name="directed-grid", test="TestDirectedGrid", kind="plain", shards=16, timeout={"quick": 900, "thorough": 1800}, gomaxprocs=4, crash_is_violation=True, records=["directed", "directed-grid"]),
+        dict(name="chaos", test="TestChaos", kind="rapid", checks={"quick": 5, "thorough": 250}, shards=8, timeout={"quick": 900, "thorough": 3400}, shrinktime="30s", crash_is_violation=True),
         dict(name="stress", test="TestStress", kind="rapid", checks={"quick": 6, "thorough": 100}, shards=8, timeout={"quick": 900, "thorough": 3400}, shrinktime="30s", crash_is_violation=True),
     ],
 )
